@@ -32,25 +32,27 @@ ASSUMPTIONS = [
     "that are powers of two times a small integer), equality demanded; rounded stream: relative tolerance 1e-9 on "
     "speeds / multipliers, and a bpm is accepted as dominant when its active time is within 1e-9*(1+max) of the maximum",
     "pandas sort_values is modelled as a stable sort; ties that could be resolved differently by an unstable sort only "
-    "arise between a tempo row and the head/tail marker rows, which the correspondence run would expose",
+    "arise between a tempo row and the head/tail marker rows, which the correspondence run would expose; pd.merge does not "
+    "promise the order of left rows sharing a key, so two coincident tempo points (outside the domain) are generated with "
+    "equal bpm for scroll_speed",
 ]
 TRUSTED = []
 MANIFEST = dict(
-    text="Machine-checked theorems (Coq 8.16.1) about an executable Gallina model over exact rationals of the three pandas pipelines "
-         "(dominant_bpm: stack max/concat/sort/diff/positional set_axis/groupby-sum/idxmax; scroll_speed: head/tail rows, stable sort, "
-         "ffill/bfill, drop_duplicates, SV table with groupby-last, outer merge; sv_normalize). Proved for ALL inputs: for every chart in the "
-         "property's domain whose tempo rows are in time order and whose last timed row is a note, the returned bpm maximises the independently "
-         "specified active time (C19_dominant_is_argmax); for every chart of the domain and every override > 0 (or a dominant reference under that "
-         "guard) sv_normalize returns exactly one SV per tempo point with mult*bpm=ref (C19_sv_normalize_spec); the three boolean oracles are sound "
-         "(the dominant one also complete). The unguarded dominant statement is refuted with concrete witnesses (unsorted tempo rows, tempo point "
-         "after the last note, SV after the last note). PARTIAL: scroll_speed = bpm/ref*SV at every breakpoint is proved only for an exhaustive "
-         "small scope (about 35 000 charts, all row orders, SVs before/at/after tempo points and coincident) by evaluating the proven-sound oracle "
-         "on the model; beyond it scroll_speed rests on the per-run in-Coq correspondence (all five games) plus the oracle evaluated on the "
-         "implementation's outputs.",
+    text="Machine-checked theorems (Coq 8.16.1) about an executable Gallina model over exact rationals of the three pandas pipelines as of "
+         "/repo commit d3e6d46 (dominant_bpm: sorted tempo rows, last NOTE, clip/diff/set_axis/groupby-sum/idxmax; scroll_speed: head/tail rows, "
+         "stable sort, ffill/bfill, drop_duplicates, SV table with groupby-last, outer merge; sv_normalize). Proved for ALL inputs of the "
+         "property's domain, in any row order and with tempo/SV rows after the last note: the returned bpm maximises the independently specified "
+         "active time (C19_dominant_is_argmax); sv_normalize returns exactly one SV per tempo point with mult*bpm=ref for every override > 0 or "
+         "the dominant reference (C19_sv_normalize_spec); scroll speed = active bpm/ref at every breakpoint and every tempo point is a breakpoint "
+         "for every chart of a game without SVs (C19_scroll_speed_spec_nosv); the three boolean oracles are sound (the dominant one also "
+         "complete). The same dominant statement is refuted, with concrete witnesses, for the model of the code BEFORE d3e6d46. PARTIAL: for "
+         "charts with an SV list (osu, Quaver) scroll_speed = bpm/ref*SV is proved only for an exhaustive small scope (about 35 000 charts, all "
+         "row orders, SVs before/at/after tempo points and coincident) by evaluating the proven-sound oracle on the model; beyond it that part "
+         "rests on the per-run in-Coq correspondence plus the oracle evaluated on the implementation's outputs.",
     note="Trusted: Coq kernel+VM, harness generator/serialiser; binary64 rounding measured (rounded stream, rel. tol 1e-9) not proved; pandas' "
-         "unstable sort modelled as stable; 'object' read as note (hold tails not counted). Known findings (kept in the generator's reach): "
-         "dominant-unsorted-rows, dominant-tempo-after-last-object, dominant-sv-after-last-object; scroll_speed/sv_normalize inherit them "
-         "through the reference bpm. All Props theorems are 'Closed under the global context'.",
+         "unstable sort modelled as stable; 'object' read as note (hold tails not counted). Findings dominant-unsorted-rows / "
+         "dominant-tempo-after-last-object / dominant-sv-after-last-object are fixed in d3e6d46 (reverting it makes the check fire with one "
+         "replay per class). All Props theorems are 'Closed under the global context'.",
     technique="Coq proof over executable model + vm_compute correspondence against the implementation",
     design="4/C19")
 
@@ -210,8 +212,12 @@ def _defect_feature(case):
 
 def classify(case, out, kind):
     """The three dominant_bpm defects of the originally pinned tree were repaired in /repo commit d3e6d46
-    (findings/C19.json: status fixed); nothing is treated as known any more, every violation raises."""
-    return None
+    (findings/C19.json: status fixed, which suppresses nothing); every violation raises.  The key only names the
+    input class so that a regression of one of them is reported with its own replay."""
+    try:
+        return _defect_feature(case) if (kind == "spec" and in_domain(case)) else None
+    except Exception:
+        return None
 
 
 # ------------------------------------------------------------------ generator
@@ -246,6 +252,8 @@ def _gen_chart(rng, kind, exact, big=False):
     bpms = [[o, rng.choice(pool)] for o in offs]
     if 2 <= nb <= 7 and rng.random() < 0.04:     # (unstable pandas sort: only small charts, where numpy's sort is stable)
         bpms[1][0] = bpms[0][0]
+        if kind == "scroll":      # pd.merge does not promise the order of rows sharing a key: keep the pair indistinguishable
+            bpms[1][1] = bpms[0][1]
     first = min(o for o, _ in bpms)
     last_t = max(o for o, _ in bpms)
     # notes: first object at or after the first tempo point (rarely before: outside the domain)
